@@ -6,25 +6,20 @@ From Coq Require Import ZifyBool ZifyNat.
 
 (* ---------------- list level ---------------- *)
 
-Lemma rev_eq_app {A} (l p r : list A) : rev l = rev p ++ r -> l = rev r ++ p.
-Proof. intros H. rewrite <- (rev_involutive l), H, rev_app_distr, rev_involutive. reflexivity. Qed.
-
-Lemma suffixb_spec p l : suffixb p l = true <-> exists q, l = q ++ p.
-Proof.
-  unfold suffixb. rewrite prefixb_spec. split.
-  - intros [r H]. exists (rev r). apply rev_eq_app. exact H.
-  - intros [q ->]. exists (rev q). apply rev_app_distr.
-Qed.
-
 Lemma suffixb_skipn p l :
   suffixb p l = true <-> (length p <= length l)%nat /\ skipn (length l - length p) l = p.
 Proof.
-  rewrite suffixb_spec. split.
+  unfold suffixb. rewrite andb_true_iff, list_eqb_eq, Nat.leb_le. reflexivity.
+Qed.
+
+Lemma suffixb_spec p l : suffixb p l = true <-> exists q, l = q ++ p.
+Proof.
+  rewrite suffixb_skipn. split.
+  - intros [H E]. exists (firstn (length l - length p) l).
+    rewrite <- (firstn_skipn (length l - length p) l) at 1. rewrite E. reflexivity.
   - intros [q ->]. rewrite app_length. split; [lia|].
     replace (length q + length p - length p)%nat with (length q) by lia.
     rewrite skipn_app, skipn_all, Nat.sub_diag. reflexivity.
-  - intros [H E]. exists (firstn (length l - length p) l).
-    rewrite <- (firstn_skipn (length l - length p) l) at 1. rewrite E. reflexivity.
 Qed.
 
 Lemma suffixb_nil l : suffixb [] l = true.
